@@ -23,6 +23,7 @@
 import DymVerif.Lemmas.CoreLiveness
 import DymVerif.Lemmas.GenEqArith
 import DymVerif.Lemmas.CoreLevFork
+import DymVerif.Lemmas.CorePunish
 namespace DymVerif.C08
 open DymVerif DymVerif.Core DymVerif.Core.LevNs
 
@@ -165,10 +166,10 @@ theorem no_proposer_event_moves_nothing (s : St) (ra : Nat) (r : Rollapp) (hg : 
 theorem slash_amount_exact (s : St) (ra : Nat) (r : Rollapp) (a : Addr) (q : Seq) (hc : Cust s)
     (hg : getRa s ra = some r) (hp : r.proposer = some a) (hq : getSeq s a = some q) :
     getSeq (handleLivenessEvent s ra) a =
-      some { q with tokens := q.tokens - min q.tokens (max s.p.lsAbs ((s.p.lsMul.mulInt q.tokens).truncateInt).toNat),
-                    dishonor := q.dishonor + s.p.dishonorL } ∧
-    (handleLivenessEvent s ra).modBal + min q.tokens (max s.p.lsAbs ((s.p.lsMul.mulInt q.tokens).truncateInt).toNat) = s.modBal ∧
-    (handleLivenessEvent s ra).burned = s.burned + min q.tokens (max s.p.lsAbs ((s.p.lsMul.mulInt q.tokens).truncateInt).toNat) := by
+      some { q with tokens := q.tokens - min q.tokens (max s.sqp.lsAbs ((s.sqp.lsMul.mulInt q.tokens).truncateInt).toNat),
+                    dishonor := q.dishonor + s.sqp.dishonorL } ∧
+    (handleLivenessEvent s ra).modBal + min q.tokens (max s.sqp.lsAbs ((s.sqp.lsMul.mulInt q.tokens).truncateInt).toNat) = s.modBal ∧
+    (handleLivenessEvent s ra).burned = s.burned + min q.tokens (max s.sqp.lsAbs ((s.sqp.lsMul.mulInt q.tokens).truncateInt).toNat) := by
   have := handleLivenessEvent_self hc hg hp hq
   exact ⟨this.2.1, this.2.2.1, this.2.2.2⟩
 
@@ -177,7 +178,7 @@ theorem slash_never_fails (p : Params) (ops : List Op) (r : Rollapp) :
     ∃ s1, slashLiveness (run p ops) r = .ok s1 := slashLiveness_ok (run_cust p ops) r
 
 /-- `slashOnce` is that record transformation -/
-theorem slashOnce_fields (p : Params) (q : Seq) :
+theorem slashOnce_fields (p : SeqParams) (q : Seq) :
     (slashOnce p q).tokens = q.tokens - min q.tokens (max p.lsAbs ((p.lsMul.mulInt q.tokens).truncateInt).toNat) ∧
     (slashOnce p q).dishonor = q.dishonor + p.dishonorL ∧ (slashOnce p q).addr = q.addr ∧
     (slashOnce p q).rollapp = q.rollapp ∧ (slashOnce p q).bonded = q.bonded ∧ (slashOnce p q).optedIn = q.optedIn ∧
@@ -202,7 +203,7 @@ theorem update_resets_clock_and_honors (s s' : St) (m : UpdMsg) (r : Rollapp) (q
     (∃ r', getRa s' m.ra = some r' ∧ r'.cdStart = s.h ∧
       r'.evH = nextSlashHeight s.p.lsBlocks s.p.lsInterval s.h s.h ∧ r'.proposer = r.proposer ∧
       (r'.evH, m.ra) ∈ s'.lev) ∧
-    getSeq s' m.sender = some { q with dishonor := q.dishonor - min s.p.dishonorSU q.dishonor } := by
+    getSeq s' m.sender = some { q with dishonor := q.dishonor - min s.sqp.dishonorSU q.dishonor } := by
   have := updateState_nonlast hr hq hl h
   exact ⟨⟨_, this.1, rfl, rfl, rfl, this.2.2⟩, this.2.1⟩
 
@@ -210,10 +211,8 @@ theorem update_resets_clock_and_honors (s s' : St) (m : UpdMsg) (r : Rollapp) (q
     rollapp over or forks it — lowers the sender's dishonor by `min(DishonorStateUpdate, dishonor)` -/
 theorem update_honors_proposer (p : Params) (ops : List Op) (m : UpdMsg) (s' : St) (q : Seq)
     (hq : getSeq (run p ops) m.sender = some q) (h : updateState (run p ops) m = .ok s') :
-    (getSeq s' m.sender).map (·.dishonor) = some (q.dishonor - min p.dishonorSU q.dishonor) := by
-  have := updateState_honors (run_lev p ops) hq h
-  rw [run_p] at this
-  exact this
+    (getSeq s' m.sender).map (·.dishonor) = some (q.dishonor - min (run p ops).sqp.dishonorSU q.dishonor) :=
+  updateState_honors (run_lev p ops) hq h
 
 /-- **… proposer change …**: a rollapp that gets a real proposer (leaving the sentinel state) starts
     a fresh countdown at the current height with its event at the next slash height (the hand-over to
@@ -282,33 +281,33 @@ theorem event_rescheduled_one_interval_later (p : Params) (hI : 1 ≤ p.lsInterv
 theorem end_at_event_height_slashes (p : Params) (ops : List Op) (f : List (Nat × Nat)) (ra : Nat) (r : Rollapp)
     (a : Addr) (q : Seq) (hg : getRa (run p ops) ra = some r) (hev : r.evH = (run p ops).h)
     (hp : r.proposer = some a) (hq : getSeq (run p ops) a = some q) :
-    getSeq (step (run p ops) (.end_ f)).1 a = some (slashOnce p q) := by
+    getSeq (step (run p ops) (.end_ f)).1 a = some (slashOnce (run p ops).sqp q) := by
   have hm := (event_fires_iff p ops ra r hg).2 hev
-  have := (endBlock_due (f := f) (run_lev p ops) (run_cust p ops) hg hm).2 a q (run_uniq p ops hg hp) hp hq
-  rw [run_p] at this
-  exact this
+  exact (endBlock_due (f := f) (run_lev p ops) (run_cust p ops) hg hm).2 a q (run_uniq p ops hg hp) hp hq
 
 /-- the proposer's record after an idle block that starts between blocks at height `H`: slashed
     iff `H + 1` is a grid point `c + N + j·I` … -/
-theorem idle_block_on_grid (p : Params) (c H : Nat) (q : Seq) (hI : 1 ≤ p.lsInterval) (hc : c ≤ H)
-    (hg : ∃ j, H + 1 = c + p.lsBlocks + j * p.lsInterval) : idleBlock p c H q = slashOnce p q := by
+theorem idle_block_on_grid (p : Params) (sp : SeqParams) (c H : Nat) (q : Seq) (hI : 1 ≤ p.lsInterval) (hc : c ≤ H)
+    (hg : ∃ j, H + 1 = c + p.lsBlocks + j * p.lsInterval) : idleBlock p sp c H q = slashOnce sp q := by
   unfold idleBlock; rw [if_pos ((nextSlashHeight_eq_succ_iff _ _ _ _ hI hc).2 hg)]
 
 /-- … and untouched otherwise -/
-theorem idle_block_off_grid (p : Params) (c H : Nat) (q : Seq) (hI : 1 ≤ p.lsInterval) (hc : c ≤ H)
-    (hg : ¬ ∃ j, H + 1 = c + p.lsBlocks + j * p.lsInterval) : idleBlock p c H q = q := by
+theorem idle_block_off_grid (p : Params) (sp : SeqParams) (c H : Nat) (q : Seq) (hI : 1 ≤ p.lsInterval) (hc : c ≤ H)
+    (hg : ¬ ∃ j, H + 1 = c + p.lsBlocks + j * p.lsInterval) : idleBlock p sp c H q = q := by
   unfold idleBlock; rw [if_neg (fun h => hg ((nextSlashHeight_eq_succ_iff _ _ _ _ hI hc).1 h))]
 
-theorem idle_seq_zero (p : Params) (c H : Nat) (q : Seq) : idleSeq p c H 0 q = q := rfl
-theorem idle_seq_succ (p : Params) (c H k : Nat) (q : Seq) :
-    idleSeq p c H (k + 1) q = idleSeq p c (H + 1) k (idleBlock p c H q) := rfl
+theorem idle_seq_zero (p : Params) (sp : SeqParams) (c H : Nat) (q : Seq) : idleSeq p sp c H 0 q = q := rfl
+theorem idle_seq_succ (p : Params) (sp : SeqParams) (c H k : Nat) (q : Seq) :
+    idleSeq p sp c H (k + 1) q = idleSeq p sp c (H + 1) k (idleBlock p sp c H q) := rfl
 
 /-- **an idle rollapp's proposer is slashed on schedule**: take any reachable state between blocks
     in which rollapp `ra` has a real proposer `a` (record `q`) and an event scheduled; let any number
     of blocks pass (`begin_ dt`, `end_ f` with arbitrary time steps and finalization failures)
     without a message.  Then the hub height advanced by that many blocks, the countdown start and
     the proposer are unchanged, the event is again at the next slash height, and the proposer's
-    record is `idleSeq`: slashed (bond and dishonor, `slashOnce`) at the end of exactly the blocks
+    record is `idleSeq` under the x/sequencer parameters IN FORCE when the idle stretch begins
+    (`(run p ops).sqp` — no message, hence no `MsgUpdateParams`, occurs inside it): slashed (bond and
+    dishonor, `slashOnce`) at the end of exactly the blocks
     whose height is a grid point `cdStart + N + j·I`, and untouched by every other block
     (`idle_block_on_grid/off_grid`). -/
 theorem idle_slashed_on_schedule (p : Params) (hI : 1 ≤ p.lsInterval) (ops : List Op)
@@ -319,7 +318,8 @@ theorem idle_slashed_on_schedule (p : Params) (hI : 1 ≤ p.lsInterval) (ops : L
     (run p (ops ++ blockOps bs)).h = (run p ops).h + bs.length ∧
     (∃ r', getRa (run p (ops ++ blockOps bs)) ra = some r' ∧ r'.cdStart = r.cdStart ∧ r'.proposer = some a ∧
       r'.evH = nextSlashHeight p.lsBlocks p.lsInterval ((run p ops).h + bs.length) r.cdStart) ∧
-    getSeq (run p (ops ++ blockOps bs)) a = some (idleSeq p r.cdStart (run p ops).h bs.length q) := by
+    getSeq (run p (ops ++ blockOps bs)) a =
+      some (idleSeq p (run p ops).sqp r.cdStart (run p ops).h bs.length q) := by
   obtain ⟨hl, hc, hf⟩ := run_between_blocks p hI ops hph
   have hev' : r.evH = nextSlashHeight p.lsBlocks p.lsInterval (run p ops).h r.cdStart := by
     rcases run_exact_between p hI ops hph r (getRa_mem hg) with h1 | h1
@@ -338,7 +338,7 @@ theorem idle_slashed_on_schedule (p : Params) (hI : 1 ≤ p.lsInterval) (ops : L
   rw [he']
   show nextSlashHeight (runBlocks (run p ops) bs).p.lsBlocks (runBlocks (run p ops) bs).p.lsInterval
     (runBlocks (run p ops) bs).h r.cdStart = _
-  rw [h3, h2, run_p]
+  rw [pp_p h3, h2, run_p]
 
 /-- **an active one never**: in every reachable state, a block end inside the window
     `[cdStart, cdStart + LivenessSlashBlocks)` of a rollapp — i.e. whenever an update was accepted
@@ -356,6 +356,19 @@ theorem active_never_slashed (p : Params) (ops : List Op) (f : List (Nat × Nat)
   exact ⟨fun hm => hne ((event_fires_iff p ops ra r hg).1 hm), this.1, this.2⟩
 
 -- ================================================================ non-vacuity and boundary witnesses
+
+/-- **a zero-bond proposer is never slashed, only dishonored** — the proposer of a rollapp whose bond is
+    0 (a standalone `PunishSequencerProposal` leaves the punished proposer in place with bond 0, see
+    `C07.punish_keeps_roles`): the liveness slash never fails on it, moves no money at all (balances,
+    module account and burn counter unchanged) and only adds the liveness dishonor to its record; every
+    other record is unchanged.  So an idle zero-bond proposer collects dishonor on the ordinary
+    schedule until it can be kicked. -/
+theorem zero_bond_proposer_only_dishonored (s : St) (r : Rollapp) (a : Addr) (q : Seq) (hp : r.proposer = some a)
+    (hg : getSeq s a = some q) (hz : q.tokens = 0) :
+    ∃ s1, slashLiveness s r = .ok s1 ∧ s1.ras = s.ras ∧ s1.bal = s.bal ∧ s1.modBal = s.modBal ∧
+      s1.burned = s.burned ∧
+      s1.seqs = s.seqs.map (fun x => if x.addr == a then { q with dishonor := q.dishonor + s.sqp.dishonorL } else x) :=
+  slashLiveness_zero_bond s r a q hp hg hz
 
 def exParams : Params where
   dispute := 2
@@ -387,7 +400,7 @@ example : let s := run exParams (exPre ++ blockOps [(5, []), (5, []), (5, []), (
 
 -- the same through the closed form
 example : let q : Seq := { addr := 1, rollapp := 0, bonded := true, optedIn := true, tokens := 40, dishonor := 0, notice := none }
-    ((idleSeq exParams 1 1 4 q).tokens, (idleSeq exParams 1 1 4 q).dishonor) = (5, 6) := by decide
+    ((idleSeq exParams exParams.seq 1 1 4 q).tokens, (idleSeq exParams exParams.seq 1 1 4 q).dishonor) = (5, 6) := by decide
 
 -- an active proposer: an update in every block, never slashed, dishonor stays 0
 example : let s := run exParams (exPre ++ [.begin_ 5, exUpd 4 1 false, .end_ [], .begin_ 5, exUpd 5 1 false, .end_ [],
